@@ -764,19 +764,23 @@ class BufferAsyncCalls(Generic[T]):
             try:
                 await _load_inputs(await self._getting)
             except aio.TimeoutError:
-                await self._run_func(inputs)
+                if await self._run_func(inputs):
+                    return
             except aio.CancelledError:
                 if not self._flush_requested:
                     raise  # This task itself is being cancelled
                 self._flush_requested = False
-                await self._run_func(inputs)
+                if await self._run_func(inputs):
+                    return
             else:
                 self.q.task_done()
 
-    async def _run_func(self, inputs: Set[T]) -> None:
+    async def _run_func(self, inputs: Set[T]) -> bool:
         """
         Run :attr:`func` with the given set of inputs and set
-        :attr:`event` once it has finished successfully.
+        :attr:`event` once it has finished successfully. Return whether
+        it did: the caller must not rely on :attr:`event` for that, as
+        another thread may clear it again at any moment by adding args.
 
         If an exception is raised, log it with its traceback and return
         without setting the event to prevent the buffered inputs from
@@ -787,8 +791,10 @@ class BufferAsyncCalls(Generic[T]):
                 await self.func(inputs)
         except Exception as e:  # noqa
             logging.exception("Failed to run %s, retrying", self.func)
+            return False
         else:
             self.event.set()
+            return True
 
     def _schedule_with_timeout(self, coro: Awaitable[X]) -> 'aio.Task[X]':
         """
